@@ -971,6 +971,73 @@ fn enum_main(maxn: usize, part: usize, parts: usize, streams: bool) {
     let _ = &mut rng;
 }
 
+
+/// exhaustive builder space: every labelled DAG with <= maxn functions (as a set of accepted edges, plus
+/// every cyclic attempt being rejected on the way: ALL ordered pairs are attempted in a rotated order),
+/// every access declaration in {none, r0, w0, r1, w1, r0w1, r1w0, w0w1, r0r1}^n (or {none,r0,w0}^n),
+/// edge kinds alternated.
+fn enumb_main(maxn: usize, full_decls: bool, part: usize, parts: usize) {
+    use std::io::Write;
+    let stdout = std::io::stdout();
+    let mut lock = stdout.lock();
+    let decl_opts: Vec<(Vec<usize>, Vec<usize>)> = if full_decls {
+        vec![
+            (vec![], vec![]),
+            (vec![0], vec![]),
+            (vec![], vec![0]),
+            (vec![1], vec![]),
+            (vec![], vec![1]),
+            (vec![0], vec![1]),
+            (vec![1], vec![0]),
+            (vec![], vec![0, 1]),
+            (vec![0, 1], vec![]),
+        ]
+    } else {
+        vec![(vec![], vec![]), (vec![0], vec![]), (vec![], vec![0])]
+    };
+    let mut idx = 0usize;
+    let mut rng = Rng(1);
+    for n in 0..=maxn {
+        let pairs: Vec<(usize, usize)> = (0..n).flat_map(|a| (0..n).map(move |b| (a, b))).collect();
+        let nd = decl_opts.len().pow(n as u32);
+        for mask in 0u64..(1u64 << pairs.len()) {
+            // attempt the selected ordered pairs (self-pairs and back edges included: they are rejected);
+            // rotate the attempt order with the mask so that different insertion orders occur
+            let mut es: Vec<(usize, usize)> = pairs.iter().enumerate().filter(|(i, _)| mask & (1 << i) != 0).map(|(_, p)| *p).collect();
+            if !es.is_empty() {
+                let r = (mask as usize) % es.len();
+                es.rotate_left(r);
+            }
+            // skip masks with more than n+1 attempts for n = 4 (keeps the space enumerable)
+            if n >= 4 && es.len() > 5 {
+                continue;
+            }
+            for d in 0..nd {
+                idx += 1;
+                if idx % parts != part {
+                    continue;
+                }
+                let mut ops = vec![];
+                let mut dd = d;
+                for _ in 0..n {
+                    let (r, w) = decl_opts[dd % decl_opts.len()].clone();
+                    dd /= decl_opts.len();
+                    ops.push(Op::Fn { tag: 0, r, w });
+                }
+                for (j, &(a, b)) in es.iter().enumerate() {
+                    ops.push(Op::Edge { k: if (j + d) % 2 == 0 { K::Logic } else { K::Contains }, a, b });
+                }
+                let mut out = vec![];
+                let fails: Vec<usize> = (0..n).filter(|i| (d >> i) & 1 == 1).collect();
+                run_case(&mut out, &format!("b{}_{}_{}", n, mask, d), "enumb", &ops, None, &fails, vec![], &mut rng, false, false);
+                for l in out {
+                    let _ = writeln!(lock, "{}", l);
+                }
+            }
+        }
+    }
+}
+
 fn main() {
     std::panic::set_hook(Box::new(|_| {}));
     let args: Vec<String> = std::env::args().collect();
@@ -986,6 +1053,12 @@ fn main() {
         ),
         Some("replay") => replay_main(&args[2]),
         Some("kpops") => kpops_main(&get("--sizes", "8,16,24,32")),
+        Some("enumb") => enumb_main(
+            get("--maxn", "3").parse().unwrap(),
+            get("--decls", "small") == "full",
+            get("--part", "0").parse().unwrap(),
+            get("--parts", "1").parse().unwrap(),
+        ),
         Some("enum") => enum_main(
             get("--maxn", "3").parse().unwrap(),
             get("--part", "0").parse().unwrap(),
